@@ -48,10 +48,17 @@ ATTRIBUTES = (
 PATHS = ("/simfs/out.csv", "/simfs/other.csv")
 SEPARATORS = set(", ;:|/=\t")
 FAULT_KINDS = {
-    "stat": ("stat_fail", "crash"),
+    # no "stat_fail": Path.exists() propagates EIO but os.path.exists() /
+    # isfile() swallow every OSError, and both are reasonable ways to ask
+    # "is this a new file?" -- demanding that a failing stat surfaces would
+    # flag the latter (soundness self-test: benign_exists_via_os_path)
+    "stat": ("crash",),
     "open": ("open_fail", "crash"),
     "write": ("write_fail", "short", "crash"),
     "close": ("close_fail", "crash"),
+    "rename": ("rename_fail", "crash"),
+    "remove": ("remove_fail", "crash"),
+    "fsync": ("fsync_fail", "crash"),
 }
 
 
@@ -68,6 +75,8 @@ def gen_attrs(rng):
     if rng.random() < 0.12:
         attrs.insert(rng.randrange(len(attrs) + 1),
                      rng.choice(("bogus_attr", "acres", "TRS")))
+    if rng.random() < 0.08:
+        attrs.append(attrs[0])          # the same column twice
     return attrs
 
 
@@ -89,6 +98,8 @@ def gen_nice(rng, attrs, earlier=None):
 
 def gen_source(rng):
     r = rng.random()
+    if r < 0.05:
+        return {"kind": "empty"}
     if r < 0.7:
         return {"kind": "desc", "text": corpus.gen_desc(rng),
                 "config": opgen.gen_config_text(
@@ -184,7 +195,8 @@ def gen_plan(rng):
         "machine": NAME, "sources": sources, "ops": ops,
         "buffer_size": rng.choice((1, 16, 64, 8192)),
         "chunk_size": rng.choice((1, 16, 64, 8192)),
-        "errno": {"stat_fail": errno.EIO,
+        "errno": {"stat_fail": errno.EIO, "rename_fail": errno.EIO,
+                  "remove_fail": errno.EIO, "fsync_fail": errno.EIO,
                   "open_fail": rng.choice((errno.EACCES, errno.EMFILE,
                                            errno.ENOSPC)),
                   "write_fail": rng.choice((errno.ENOSPC, errno.EIO)),
@@ -294,7 +306,9 @@ def build_sources(pytrs, specs):
     out = []
     for s in specs:
         try:
-            if s["kind"] == "desc":
+            if s["kind"] == "empty":
+                out.append(pytrs.TractList())
+            elif s["kind"] == "desc":
                 d = pytrs.PLSSDesc(s["text"], config=s["config"],
                                    parse_qq=s["parse_qq"], source=s["source"])
                 out.append(d)
@@ -678,7 +692,9 @@ def run_workload(plan, srcs, fault=None, interrupt=None, twin=None,
         k = faulted_op
         op, out = ops[k], outcomes[k]
         kindf = fs.fired[1] if fs.fired else "interrupt"
-        fpath = fs.fired[3] if fs.fired else _op_path(R, op)
+        # judge the op's own target file (the faulted call may have been on
+        # a temporary sibling the writer renames into place)
+        fpath = _op_path(R, op) or (fs.fired[3] if fs.fired else None)
         if "raised" not in out:
             problems.append({
                 "oracle": "fault_swallowed", "path": kindf,
@@ -707,15 +723,15 @@ def run_workload(plan, srcs, fault=None, interrupt=None, twin=None,
         # twin's bytes at the first later point where the file is closed
         twin_full = _twin_flushed(twin, k, fpath)
         now = durable(fs)
-        truncated = any(t[1] == "open" and t[4] == k and
-                        (fs.fired is None or t[0] < fs.fired[0])
-                        for t in fs.trace) and op.get("mode") == "w"
         d = now.get(fpath, b"")
-        opened = any(t[1] == "open" and t[4] == k and
+        opened = any(t[1] == "open" and t[4] == k and t[2] == fpath and
                      (fs.fired is None or t[0] < fs.fired[0])
                      for t in fs.trace)
+        truncated = opened and op.get("mode") == "w"
         opens_here = op["op"] in ("csv", "tw_new", "tw_reopen")
-        if opens_here and not opened:
+        if now.get(fpath) == before.get(fpath):
+            pass        # the failed op left the file exactly as it was
+        elif opens_here and not opened:
             # the fault came before this op's open took effect: nothing may
             # have happened to the file at all
             if now.get(fpath) != before.get(fpath):
@@ -736,13 +752,74 @@ def run_workload(plan, srcs, fault=None, interrupt=None, twin=None,
                            "before_len": len(before.get(fpath, b"")),
                            "len": len(d)}})
         for p in sorted(set(now) | set(before)):
+            if p not in PATHS:
+                continue    # e.g. a temporary file of the writer's own
             if p != fpath and now.get(p) != before.get(p):
                 problems.append({
                     "oracle": "other_file_touched", "path": kindf,
                     "detail": {"op_index": k, "op": op, "fault": fault,
                                "path": p}})
-        # ---- repair + one recovery op (progress once faults stop)
+        # ---- the same TractWriter object is used again (non-crash faults)
         fs.fault = None
+        reuse = None
+        if kindf != "crash" and op["op"] in ("tw_write", "tw_close"):
+            reuse = R.writers.get(op.get("w"))
+            if reuse is None or reuse["obj"] is None:
+                reuse = None
+        if reuse is not None and fpath is not None:
+            did0 = fs.repair(fpath)
+            try:
+                rows0 = parse_csv(fs.files.get(fpath, b""))
+            except Exception:  # noqa
+                rows0 = None
+            src = R.srcs[0]
+            tr = tracts_of(pytrs, src)
+            exp = []
+            plus = None
+            if reuse["plus"]:
+                plus = ["again", 9][:len(reuse["plus"])]
+            for t in tr:
+                row = [cell_spec(t, a) for a in reuse["attrs"]]
+                if plus:
+                    row += [["eq", str(x)] for x in plus]
+                if reuse["uid"] is not None:
+                    row.append(["any"])
+                exp.append(row)
+            try:
+                # documented: a closed writer that is opened again appends
+                reuse["obj"].open()
+                ret = reuse["obj"].write(src, plus_cols=plus)
+                reuse["obj"].close()
+                reuse["open"] = False
+                R.dirty.discard(fpath)
+                R.bump("writer_reused_after_fault")
+                if ret != len(tr):
+                    problems.append({
+                        "oracle": "reused_writer_return_count", "path": kindf,
+                        "detail": {"op_index": k, "fault": fault, "ret": ret,
+                                   "expected": len(tr)}})
+                rows1 = parse_csv(fs.files.get(fpath, b""))
+                if rows0 is not None:
+                    if fpath not in fs.files and rows0:
+                        pass
+                    if rows1[:len(rows0)] != rows0:
+                        problems.append({
+                            "oracle": "reused_writer_destroyed_rows",
+                            "path": kindf,
+                            "detail": {"op_index": k, "fault": fault,
+                                       "rows_before": len(rows0),
+                                       "rows_after": len(rows1)}})
+                    else:
+                        diff = rows_match(exp, rows1[len(rows0):])
+                        if diff and did0 != "deleted" and did0 != "absent":
+                            problems.append({
+                                "oracle": "reused_writer_append_wrong",
+                                "path": _cls(diff),
+                                "detail": {"op_index": k, "fault": fault,
+                                           "diff": diff, "repair": did0}})
+            except Exception as e:  # noqa - a broken writer may refuse; fine
+                R.bump("writer_reuse_raised:" + type(e).__name__)
+        # ---- repair + one recovery op (progress once faults stop)
         if fpath is not None:
             did = fs.repair(fpath)
             R.bump("repair:" + did)
@@ -867,7 +944,8 @@ def _driver(plan, tier):
             execs += 1
             bump("fault_runs")
             for k2, v in res["stats"].items():
-                if k2.startswith(("fault_fired", "repair", "recovered")):
+                if k2.startswith(("fault_fired", "repair", "recovered",
+                                  "writer_reuse")):
                     bump(k2, v)
             for pr in res["problems"]:
                 failures.append({
@@ -886,7 +964,7 @@ def _driver(plan, tier):
             bump("interrupt_runs")
             for k2, v in res["stats"].items():
                 if k2.startswith(("fault_fired", "interrupt", "repair",
-                                  "recovered")):
+                                  "recovered", "writer_reuse")):
                     bump(k2, v)
             for pr in res["problems"]:
                 failures.append({
@@ -994,7 +1072,7 @@ RULE = (
     "(+ sometimes an unknown name), and per-run I/O knobs buffer_size, "
     "_CHUNK_SIZE in {1,16,64,8192}. The workload runs once fault-free "
     "(checked against an independent row model) and then once per (raw I/O "
-    "call index x applicable fault kind in {stat_fail, open_fail, write_fail, "
+    "call index x applicable fault kind in {open_fail, write_fail, "
     "short, close_fail, crash}) plus 6 line-level interrupts, "
     "each in its own fork taken after the sources were parsed. evaluations = "
     "workloads; a workload is NON-TRIVIAL iff it appended to an existing "
